@@ -60,6 +60,61 @@ CLAIMED = {
         note=TB + " Costs of the final generation are not NaN.",
         technique="Coq proof over the regenerated schema + sort/selection theorems; scripted vm_compute correspondence; search over real optimizers",
         design="§7 C03"),
+    "C01": dict(
+        text=("PARTIAL proof. Proved (Coq): for every exported optimizer whose skeleton - REGENERATED from its source by T-algo on every run - conforms "
+              "(83 of 84; Imperialist Competitive is a named known finding), every objective, weight vector, valid task and direction, and every "
+              "sequence of constructions/copies the numeric kernel may perform, every agent object ever built (hence every agent of every generation "
+              "and best_solution) has its position in the search space: heap invariant over the provenance machine, using the REGENERATED "
+              "_init_agent/initial_solution/solve/correct_solution (T-core, bridged) and the C13/C14 correction theorems; tightness lemma: a raw "
+              "construction site admits a violation. NOT proved: H_raw (candidates handed to _init_agent have the right length and no NaN) - a property "
+              "of 84 numpy kernels - monitored by running all real optimizers on generated tasks."),
+        note=TB + " T-algo's syntactic provenance analysis (agent construction sites, core-field stores, position-list aliasing, reflection) is trusted and "
+                  "cross-checked dynamically; H_raw is a hypothesis.",
+        technique="Coq proof (heap invariant of a provenance machine over regenerated skeletons + regenerated init path); search over real optimizers for H_raw",
+        design="§7 C01/C05/C02"),
+    "C02": dict(
+        text=("Proof (Coq): every agent built by a conforming optimizer reports (after the sign restoration of Population/OptimizationResult, regenerated) "
+              "exactly the user's objective at its stored position - the weight-vector dot product for multi-objective tasks, both directions (xneg "
+              "involutive; dot(-l,w) = -dot(l,w) as the one oracle law) - and its fitness is the regenerated calculate_fitness of that cost, which is "
+              "phi(reported cost) on any float carrier. Same provenance machine and regenerated init path as C01. Tie: bridges + vm_compute "
+              "correspondence of init_agent (position, cost, fitness bits, objective argument) + all real optimizers re-evaluated."),
+        note=TB + " The objective is a deterministic function; np.dot is an oracle with the negation law; H_raw as in C01.",
+        technique="Coq proof over regenerated skeletons and init path; PrimFloat/xnum vm_compute correspondence; search",
+        design="§7 C02"),
+    "C05": dict(
+        text=("PARTIAL proof. Proved (Coq): for ALL 84 exported optimizers (each reaches the objective only through _init_agent: regenerated fact, no "
+              "exception) every argument objective_function is ever called with - discarded candidates included - is a member of the search space, "
+              "given H_raw; the regenerated solve/_fcn pass the CORRECTED argument. NOT proved: H_raw; its violations (NaN candidates) are exactly C05 "
+              "violations (lemma nan_candidate_not_in_space) and are found by the recording-objective search: three known findings."),
+        note=TB + " Worker processes record to per-process files; H_raw is a hypothesis monitored by search.",
+        technique="Coq proof (calls invariant of the provenance machine) + recording-objective search over all optimizers and modes",
+        design="§7 C05"),
+    "C10": dict(
+        text=("Proof (Coq) for the size-regular optimizers (69, pinned; regenerated by T-algo): the regenerated _init_population yields exactly "
+              "population_size agents in every mode (pool = any permutation), every population write with a known size effect preserves a "
+              "population of P agents, hence every generation of every run has exactly P agents. The 12 irregular optimizers have no machine-checked "
+              "size model: they are pinned by the fingerprint of their population-affecting statements and checked by search only at 1x..3x sizes "
+              "(declared partial for them); the three variable-by-design optimizers are checked for non-empty and <= P."),
+        note=TB + " step_conforms (the step edits the population only through the writes T-algo lists) is a hypothesis; irregular optimizers: search only.",
+        technique="Coq proof over regenerated population-write skeletons; fingerprint pin + search for irregular optimizers",
+        design="§7 C10"),
+    "C15": dict(
+        text=("Proof (Coq): (i) an agent object built by a conforming optimizer is never altered afterwards (the heap of the provenance machine only "
+              "grows), and a snapshot consists of those objects or of sign-restored copies (regenerated); (ii) the REGENERATED trend utilities return, per "
+              "requested iteration, the field of the idx-th agent of that generation sorted in the task's direction, that agent is the idx-th best, and "
+              "the last entry of best_agent_trend is the cost of any optimal member of the last generation (best_solution, C03). Tie: bridges, "
+              "vm_compute correspondence of utils.py, independent deep snapshots after every cycle of all real optimizers."),
+        note=TB + " Fidelity is over position/cost/fitness; private bookkeeping fields of agent subclasses are outside it.",
+        technique="Coq proof (append-only heap; sorted-list ranking) + vm_compute correspondence + snapshot search",
+        design="§7 C15"),
+    "C17": dict(
+        text=("Proof (Coq): for every optimizer in the pinned structurally-elitist set (54; the set is recomputed from the source on every run and must "
+              "contain the pinned one) and every step that edits the population only through its listed writes, each generation contains an agent at "
+              "least as good as every agent of every earlier generation, on internal costs and - via the sign restoration - in the task's direction for "
+              "min and max alike; hence best_solution is the best ever recorded. Uses the regenerated greedy/trim helpers (C16)."),
+        note=TB + " Classification is conservative (syntactic); step_conforms is a hypothesis; no NaN costs; population_size >= 1.",
+        technique="Coq proof (keeps_best for each elitist population write, induction over writes and cycles) + search over the elitist set",
+        design="§7 C17"),
 }
 
 PENDING_REASON = "check not built yet in this round (work in progress, see DESIGN.md §11 build order); not claimed until its check exists"
